@@ -64,3 +64,7 @@ mod limits;
 // profiles bk_binder / bk_docs of checks/reg_buckets.py
 #[cfg(all(kani, feature = "bucketedge"))]
 mod registries_edge;
+
+// binary search over timelines of any length (model feature `lazyfam`)
+#[cfg(all(kani, feature = "lazyfam"))]
+mod votes_unbounded;
